@@ -814,6 +814,158 @@ fn main() {
         println!("E2REPLAY {}", json!({"result": {"cases": n, "mismatches": mism}, "log": []}));
         return;
     }
+    if sc["op"] == "client_credprops" {
+        // registrations through the real client over a store of every capability, all resident-key / user-verification
+        // requests, with credProps requested: the reported rk must say whether the stored credential is discoverable
+        let mut rows = Vec::new();
+        let mut polls = 0u64;
+        for cap in ["full", "forced", "non_discoverable"] {
+            for (rk_req, rrk) in [(None, false), (None, true), (Some("discouraged"), false), (Some("preferred"), false), (Some("required"), true)] {
+                for uvr in ["discouraged", "preferred", "required"] {
+                    let store = Store { script: json!({"capability": cap, "find": {"ok": 0}}), log: log.clone(), held: vec![] };
+                    let user = User { script: json!({"verification": true, "outcome": {"ok": [true, true]}}), log: log.clone() };
+                    let auth = Authenticator::new(Aaguid::new_empty(), store, user);
+                    let mut client = passkey_client::Client::new(auth);
+                    let origin = url::Url::parse("https://future.1password.com").unwrap();
+                    let options = webauthn::CredentialCreationOptions { public_key: webauthn::PublicKeyCredentialCreationOptions {
+                        rp: webauthn::PublicKeyCredentialRpEntity { id: None, name: "rp".into() },
+                        user: webauthn::PublicKeyCredentialUserEntity { id: vec![9u8; 8].into(), display_name: "d".into(), name: "n".into() },
+                        challenge: vec![8u8; 32].into(),
+                        pub_key_cred_params: webauthn::PublicKeyCredentialParameters::default_algorithms(),
+                        timeout: None,
+                        exclude_credentials: Default::default(),
+                        authenticator_selection: Some(webauthn::AuthenticatorSelectionCriteria {
+                            authenticator_attachment: None,
+                            resident_key: match rk_req { Some("discouraged") => Some(webauthn::ResidentKeyRequirement::Discouraged), Some("preferred") => Some(webauthn::ResidentKeyRequirement::Preferred),
+                                                         Some("required") => Some(webauthn::ResidentKeyRequirement::Required), _ => None },
+                            require_resident_key: rrk,
+                            user_verification: match uvr { "discouraged" => webauthn::UserVerificationRequirement::Discouraged, "required" => webauthn::UserVerificationRequirement::Required,
+                                                           _ => webauthn::UserVerificationRequirement::Preferred },
+                        }),
+                        hints: None,
+                        attestation: Default::default(),
+                        attestation_formats: Default::default(),
+                        extensions: Some(webauthn::AuthenticationExtensionsClientInputs { cred_props: Some(true), ..Default::default() }),
+                    }};
+                    let r = block_on(client.register(&origin, options, passkey_client::DefaultClientData), 1000, &mut polls);
+                    let stored_handle = client.authenticator().store().held.first().map(|p| p.user_handle.is_some());
+                    match r {
+                        Some(Ok(c)) => rows.push(json!({"cap": cap, "rk": rk_req, "require": rrk, "uv": uvr, "ok": true,
+                                                         "cred_props_rk": c.client_extension_results.cred_props.as_ref().and_then(|p| p.discoverable), "stored_user_handle": stored_handle})),
+                        Some(Err(e)) => rows.push(json!({"cap": cap, "rk": rk_req, "require": rrk, "uv": uvr, "ok": false, "err": format!("{:?}", e), "stored_user_handle": stored_handle})),
+                        None => {}
+                    }
+                }
+            }
+        }
+        let mism: Vec<&Value> = rows.iter().filter(|r| r["ok"] == true && r["cred_props_rk"] != r["stored_user_handle"]).collect();
+        println!("E2REPLAY {}", json!({"result": {"rows": rows.len(), "mismatches": mism}, "log": []}));
+        return;
+    }
+    if sc["op"] == "wrapper_contention" {
+        // two store calls through the same lock wrapper, interleaved: A starts (its inner call suspends once while the guard is
+        // held), B starts and queues for the lock, then both are polled until they finish; a pair that never finishes is a deadlock
+        let mut deadlocks: Vec<String> = Vec::new();
+        let methods = ["find_credentials", "find_with_list", "update_credential", "save_credential", "get_info"];
+        let mut cx = Context::from_waker(Waker::noop());
+        let mk_pk = |b: u8| { let mut p = Passkey::mock(rp.clone()).counter(5).build(); p.credential_id = vec![b; 16].into(); p };
+        macro_rules! contention {
+            ($mk:expr) => {{
+                for ma in methods {
+                    for mb in methods {
+                        for cap in ["forced", "full", "non_discoverable"] {
+                            let pend = match ma { "find_credentials" | "find_with_list" => json!({"find": 1}), "update_credential" => json!({"update": 1}), "save_credential" => json!({"save": 1}), _ => json!({}) };
+                            let inner = Store { script: json!({"find": {"ok": 1}, "pending": pend, "capability": cap, "stateful": true}), log: log.clone(), held: vec![mk_pk(1)] };
+                            let shared = $mk(inner);
+                            let user_e = || make_credential::PublicKeyCredentialUserEntity { id: vec![9u8; 8].into(), display_name: None, name: None, icon_url: None };
+                            let rpe = || make_credential::PublicKeyCredentialRpEntity { id: rp.clone(), name: None };
+                            let opts_a = make_credential::Options { rk: true, up: true, uv: false };
+                            let opts_b = make_credential::Options { rk: true, up: true, uv: false };
+                            let mut sa = shared.clone();
+                            let mut sb = shared.clone();
+                            let rp_a = rp.clone();
+                            let rp_b = rp.clone();
+                            let ids_a = [descriptor(&[1u8; 16])];
+                            let ids_b = [descriptor(&[1u8; 16])];
+                            let (ua, ub, ra, rb) = (user_e(), user_e(), rpe(), rpe());
+                            let (pa, pb) = (mk_pk(1), mk_pk(1));
+                            let (na, nb) = (mk_pk(2), mk_pk(3));
+                            let fa: Pin<Box<dyn Future<Output = ()>>> = match ma {
+                                "find_credentials" => Box::pin(async move { let _ = sa.find_credentials(None, &rp_a).await; }),
+                                "find_with_list" => Box::pin(async move { let _ = sa.find_credentials(Some(&ids_a), &rp_a).await; }),
+                                "update_credential" => Box::pin(async move { let _ = sa.update_credential(pa).await; }),
+                                "save_credential" => Box::pin(async move { let _ = sa.save_credential(na, ua, ra, opts_a).await; }),
+                                _ => Box::pin(async move { let _ = sa.get_info().await; }),
+                            };
+                            let fb: Pin<Box<dyn Future<Output = ()>>> = match mb {
+                                "find_credentials" => Box::pin(async move { let _ = sb.find_credentials(None, &rp_b).await; }),
+                                "find_with_list" => Box::pin(async move { let _ = sb.find_credentials(Some(&ids_b), &rp_b).await; }),
+                                "update_credential" => Box::pin(async move { let _ = sb.update_credential(pb).await; }),
+                                "save_credential" => Box::pin(async move { let _ = sb.save_credential(nb, ub, rb, opts_b).await; }),
+                                _ => Box::pin(async move { let _ = sb.get_info().await; }),
+                            };
+                            let (mut fa, mut fb) = (fa, fb);
+                            let (mut da, mut db) = (false, false);
+                            if fa.as_mut().poll(&mut cx).is_ready() { da = true; }
+                            if fb.as_mut().poll(&mut cx).is_ready() { db = true; }
+                            for _ in 0..200 {
+                                if !da && fa.as_mut().poll(&mut cx).is_ready() { da = true; }
+                                if !db && fb.as_mut().poll(&mut cx).is_ready() { db = true; }
+                                if da && db { break; }
+                            }
+                            if !(da && db) { deadlocks.push(format!("{} || {} (store capability {}): finished = {}/{}", ma, mb, cap, da, db)); }
+                            // the futures still hold guards: leak them rather than waiting for a drop that may block
+                            std::mem::forget(fa);
+                            std::mem::forget(fb);
+                        }
+                    }
+                }
+            }};
+        }
+        if sc["lock"] == "rwlock" {
+            contention!(|inner| Arc::new(tokio::sync::RwLock::new(inner)));
+        } else {
+            contention!(|inner| Arc::new(tokio::sync::Mutex::new(inner)));
+        }
+        deadlocks.truncate(10);
+        println!("E2REPLAY {}", json!({"result": {"deadlocks": deadlocks}, "log": []}));
+        return;
+    }
+    if sc["op"] == "cbor_keys" {
+        // fully populated messages, serialised: the top-level keys of each map, in the order they come out
+        use ciborium::value::Value as V;
+        fn keys_of<T: serde::Serialize>(name: &str, msg: &T, out: &mut Vec<Value>) {
+            let mut bytes = Vec::new();
+            let _ = ciborium::ser::into_writer(msg, &mut bytes);
+            let v: Option<V> = ciborium::de::from_reader(bytes.as_slice()).ok();
+            let keys: Vec<i128> = match v { Some(V::Map(m)) => m.iter().filter_map(|(k, _)| k.as_integer().map(i128::from)).collect(), _ => vec![] };
+            let asc = keys.windows(2).all(|w| w[0] < w[1]);
+            out.push(json!({"message": name, "keys": keys.iter().map(|k| *k as i64).collect::<Vec<_>>(), "ascending": asc && !keys.is_empty()}));
+        }
+        let mut out = Vec::new();
+        let ad = || passkey_types::ctap2::AuthenticatorData::new("example.com", Some(1));
+        keys_of("get_assertion::Response", &get_assertion::Response {
+            credential: Some(descriptor(&[1u8; 16])), auth_data: ad(), signature: vec![1u8; 70].into(),
+            user: Some(webauthn::PublicKeyCredentialUserEntity { id: vec![9u8; 8].into(), display_name: "d".into(), name: "n".into() }),
+            number_of_credentials: Some(1), user_selected: Some(true), large_blob_key: Some(vec![2u8; 32].into()),
+            unsigned_extension_outputs: None }, &mut out);
+        keys_of("make_credential::Response", &make_credential::Response {
+            fmt: "none".into(), auth_data: ad(), att_stmt: V::Map(vec![]), ep_att: Some(false), large_blob_key: Some(vec![2u8; 32].into()), unsigned_extension_outputs: None }, &mut out);
+        keys_of("get_assertion::Request", &get_assertion::Request {
+            rp_id: "example.com".into(), client_data_hash: vec![7u8; 32].into(), allow_list: Some(vec![descriptor(&[1u8; 16])]), extensions: None,
+            options: make_credential::Options { rk: false, up: true, uv: true }, pin_auth: Some(vec![1u8; 16].into()), pin_protocol: Some(1) }, &mut out);
+        keys_of("make_credential::Request", &make_credential::Request {
+            client_data_hash: vec![7u8; 32].into(), rp: make_credential::PublicKeyCredentialRpEntity { id: "example.com".into(), name: Some("n".into()) },
+            user: webauthn::PublicKeyCredentialUserEntity { id: vec![9u8; 8].into(), display_name: "d".into(), name: "n".into() },
+            pub_key_cred_params: webauthn::PublicKeyCredentialParameters::default_algorithms(), exclude_list: Some(vec![descriptor(&[1u8; 16])]), extensions: None,
+            options: make_credential::Options { rk: true, up: true, uv: false }, pin_auth: Some(vec![1u8; 16].into()), pin_protocol: Some(1) }, &mut out);
+        keys_of("get_info::Response", &passkey_types::ctap2::get_info::Response {
+            versions: vec![passkey_types::ctap2::get_info::Version::FIDO_2_0], extensions: Some(vec![passkey_types::ctap2::get_info::Extension::Prf]), aaguid: Aaguid::new_empty(),
+            options: Some(Default::default()), max_msg_size: std::num::NonZeroU128::new(1200), pin_protocols: Some(vec![1]),
+            transports: Some(vec![webauthn::AuthenticatorTransport::Usb]) }, &mut out);
+        println!("E2REPLAY {}", json!({"result": {"messages": out}, "log": []}));
+        return;
+    }
     if sc["op"] == "cbor_duplicates" {
         // serialise fully populated messages, duplicate one top-level member at a time, decode again
         use ciborium::value::Value as V;
@@ -958,6 +1110,10 @@ fn main() {
         add("mc-extensions-none", base().set_make_credential_extensions(None).ok(), false, false);
         add("ga-extensions-none", base().set_assertion_extensions(None).ok(), false, false);
         add("set_flags(AT|ED)", Some(base().set_flags(Flags::AT | Flags::ED)), false, false);
+        // the other order: sections first, plain flags afterwards
+        add("mc-extensions then set_flags", AuthenticatorData::new(&rp, Some(1)).set_make_credential_extensions(mc_ext()).ok().map(|a| a.set_flags(Flags::UP | Flags::UV)), false, true);
+        add("ga-extensions then set_flags", AuthenticatorData::new(&rp, Some(1)).set_assertion_extensions(ga_ext()).ok().map(|a| a.set_flags(Flags::UP)), false, true);
+        add("attested then set_flags", acd().map(|a| AuthenticatorData::new(&rp, Some(1)).set_attested_credential_data(a).set_flags(Flags::UP)), true, false);
         println!("E2REPLAY {}", json!({"result": {"cases": cases}, "log": []}));
         return;
     }
